@@ -10,6 +10,7 @@ import (
 	"fmt"
 	"hash/fnv"
 	"math"
+	"math/rand"
 	"os"
 	"sort"
 	"strings"
@@ -46,6 +47,42 @@ type tableSpec struct {
 	GCol  string    `json:"gcol"`
 	GType string    `json:"gtype"` // upper-case standard name
 	Srs   srsSpec   `json:"srs"`
+	// what the SOURCE records about the table besides the schema; none of it may reach a target:
+	// gpkg_geometry_columns z / m: 0 prohibited or 2 optional (the geometries are XY either way; a target table is
+	// created with 0, 0); gpkg_contents min_x min_y max_x max_y (nil = NULL): the GeoPackage extent is informative,
+	// so it may be absent, exact, loose (larger than the data) or stale (elsewhere)
+	Z             int       `json:"z,omitempty"`
+	M             int       `json:"m,omitempty"`
+	SrcExtent     []float64 `json:"src_extent,omitempty"`
+	SrcExtentMode string    `json:"src_extent_mode,omitempty"`
+}
+
+// recordExtent chooses what the source records as the extent of a table whose features have the coordinates pts
+func (t *tableSpec) recordExtent(r *rand.Rand, pts [][2]float64) {
+	t.SrcExtent, t.SrcExtentMode = nil, "null"
+	var b [4]float64
+	for i, p := range pts {
+		if i == 0 {
+			b = [4]float64{p[0], p[1], p[0], p[1]}
+		}
+		b[0], b[1], b[2], b[3] = math.Min(b[0], p[0]), math.Min(b[1], p[1]), math.Max(b[2], p[0]), math.Max(b[3], p[1])
+	}
+	w, h := b[2]-b[0]+1, b[3]-b[1]+1
+	switch r.Intn(4) {
+	case 1:
+		if len(pts) > 0 {
+			t.SrcExtent, t.SrcExtentMode = b[:], "exact"
+		}
+	case 2: // larger on some or all sides (also around no data at all)
+		g := [4]float64{float64(r.Intn(3)) * w / 2, float64(r.Intn(3)) * h / 2, float64(r.Intn(3)) * w / 2, float64(1+r.Intn(3)) * h / 2}
+		t.SrcExtent, t.SrcExtentMode = []float64{b[0] - g[0], b[1] - g[1], b[2] + g[2], b[3] + g[3]}, "loose"
+	case 3: // somewhere else: disjoint from the data, or overlapping it partly
+		dx, dy := float64(r.Intn(7)-3)*w/2, float64(r.Intn(7)-3)*h/2
+		if dx == 0 && dy == 0 {
+			dx = 2 * w
+		}
+		t.SrcExtent, t.SrcExtentMode = []float64{b[0] + dx, b[1] + dy, b[2] + dx, b[3] + dy}, "stale"
+	}
 }
 
 var gtypeCode = map[string]int{"GEOMETRY": 0, "POINT": 1, "LINESTRING": 2, "POLYGON": 3, "MULTIPOINT": 4,
@@ -521,12 +558,16 @@ func createSource(path string, tables []tableSpec) (*gs.Handle, error) {
 		if _, err = h.Exec(fmt.Sprintf(`CREATE TABLE "%s"(%s)`, t.Name, strings.Join(defs, ", "))); err != nil {
 			return nil, fmt.Errorf("create %s: %w", t.Name, err)
 		}
-		if _, err = h.Exec(`INSERT INTO gpkg_contents(table_name,data_type,identifier,description,srs_id) VALUES(?,?,?,?,?)`,
-			t.Name, "features", "ident of "+t.Name, "description of "+t.Name, s.ID); err != nil {
+		var e [4]interface{} // NULL unless the source records an extent
+		if len(t.SrcExtent) == 4 {
+			e = [4]interface{}{t.SrcExtent[0], t.SrcExtent[1], t.SrcExtent[2], t.SrcExtent[3]}
+		}
+		if _, err = h.Exec(`INSERT INTO gpkg_contents(table_name,data_type,identifier,description,srs_id,min_x,min_y,max_x,max_y) VALUES(?,?,?,?,?,?,?,?,?)`,
+			t.Name, "features", "ident of "+t.Name, "description of "+t.Name, s.ID, e[0], e[1], e[2], e[3]); err != nil {
 			return nil, fmt.Errorf("contents: %w", err)
 		}
-		if _, err = h.Exec(`INSERT INTO gpkg_geometry_columns(table_name,column_name,geometry_type_name,srs_id,z,m) VALUES(?,?,?,?,0,0)`,
-			t.Name, t.GCol, t.GType, s.ID); err != nil {
+		if _, err = h.Exec(`INSERT INTO gpkg_geometry_columns(table_name,column_name,geometry_type_name,srs_id,z,m) VALUES(?,?,?,?,?,?)`,
+			t.Name, t.GCol, t.GType, s.ID, t.Z, t.M); err != nil {
 			return nil, fmt.Errorf("geometry_columns: %w", err)
 		}
 	}
